@@ -53,13 +53,19 @@ def run(plan):
             if o.kind != "ok":
                 res.fail(f"genuine handshake raised {o.exc_type}", repr(o.exc))
                 return
+        if plan.get("caps_profile"):
+            dev.caps_pages = [([(cid, bytes.fromhex(v)) for cid, v in plan["caps_profile"]], None)]
         if plan.get("learn_caps", True):
             o = await s.do({"op": "caps"})
             if o.kind != "ok":
                 res.fail(f"clean get_capabilities raised {o.exc_type}", repr(o.exc))
                 return
-        net = [{} for _ in range(NREQ[opname] + 1)]
-        net[which % NREQ[opname]] = {"app": spec}
+        nreq = NREQ[opname]
+        if plan.get("caps_profile") is not None and opname == "refresh":
+            nreq = 1 + sum(1 for c, _v in plan["caps_profile"] if c in (0x0216, 0x021F)) + (
+                1 if any(c in (0x0009, 0x000A, 0x0042, 0x0018, 0x0048, 0x0043, 0x00E3, 0x0039) for c, _v in plan["caps_profile"]) else 0)
+        net = [{} for _ in range(nreq + 1)]
+        net[which % nreq] = {"app": spec}
         op = {"op": opname, "net": net}
         if opname == "apply":
             op["set"] = {"target_temperature": 21.5, "power_state": True, "ieco": True, "rate_select": 40}
@@ -182,4 +188,30 @@ def space(tier):
         return {"config": cfg(version), "target": opname, "which": rng.randrange(NREQ[opname]),
                 "app": {"base": base, "edit": edit, "place": "alone"}}
     sp.add("oversized", 300 if tier == "quick" else 20000, oversized_fn)
+
+    # --- well-formed frames with arbitrary field values, after the client learned different capability profiles
+    PROFILES = [None, [[0x0210, "07"], [0x0214, "01"]], [[0x0210, "05"], [0x0216, "02"], [0x021F, "02"], [0x0048, "01"]],
+                [[0x0210, "01"], [0x0009, "01"], [0x000A, "01"], [0x0042, "01"], [0x0018, "01"]], []]
+    IDS = {"state": 0xC0, "caps": 0xB5, "caps2": 0xB5, "props": 0xB1, "props_ack": 0xB0, "energy": 0xC1, "humidity": 0xC1}
+
+    def arbitrary_fn(j, rng):
+        version = rng.choice([2, 3])
+        opname = rng.choice(OPS)
+        base = rng.choice(BASES)
+        n = rng.choice([base_len(base), 24, 30, rng.randint(16, 60)])
+        edit = [["rand", n, j], ["id", IDS[base]]]
+        if base in ("energy", "humidity"):
+            edit += [["set", 1, 0x21], ["set", 2, 0x01], ["set", 3, 0x44 if base == "energy" else 0x45]]
+        if base in ("caps", "caps2", "props", "props_ack"):
+            edit.append(["set", 1, rng.choice([0, 1, 2, 3, 5, 12, 255])])
+        p = {"config": cfg(version), "target": opname, "which": rng.randrange(NREQ[opname]),
+             "app": {"base": base, "edit": edit,
+                     # a decodable state frame after the good one would legitimately win: only before it
+                     "place": "alone" if version == 2 else rng.choice(
+                         ["alone", "before_good"] if base == "state" else ["alone", "before_good", "after_good"])}}
+        prof = PROFILES[j % len(PROFILES)]
+        if prof is not None:
+            p["caps_profile"] = prof
+        return p
+    sp.add("arbitrary_values", 3000 if tier == "quick" else 300_000, arbitrary_fn)
     return sp
